@@ -386,6 +386,9 @@ def specs():
     add("UKF.Omega", lambda x: F.UKF().Omega(x), lambda a: [a.v()])
     add("UKF.set_weights", lambda x: F.UKF().set_weights(), lambda a: [a.v()])
     add("Sensors.angular_velocities", lambda P_: sensors_obj().angular_velocities(P_, 100.0), lambda a: [a.ang(12)])
+    # (the method dispatches on the type of its first argument: a QuaternionArray object - the objects form of this spec - is used as it is)
+    add("Sensors.angular_velocities[quaternion sequence]", lambda Q_: sensors_obj().angular_velocities(Q_ if type(Q_).__name__ == "QuaternionArray" else __import__("ahrs").QuaternionArray(Q_), 100.0),
+        lambda a: [a.qu(12)])
     add("wmm.geodetic2spherical", lambda c: wmm_mod.geodetic2spherical(float(c[0]) * 9.0, float(c[1]) * 18.0, abs(float(c[2]))), lambda a: [a.v()])
     add("WMM.get_properties", lambda x: np.array([float(v) for v in wmm_obj().get_properties(wmm_obj().wmm_filename).values() if isinstance(v, (int, float))]), lambda a: [a.v()])
     # ---- the same call written with keywords (parameter names from the signature): the same arguments, so the same result
